@@ -4,16 +4,28 @@
 # exit 0: property held on everything explored (known findings are printed as KNOWN-FINDING lines)
 # exit 1: VIOLATION property=<id> replay=<path>
 # exit 2: harness error (build failure, replay mismatch, undecodable packet ...)
+# VERIF_REPO=<dir> (tools only: seeded changes, background sweeps) builds a shadow copy of the
+# simulator against another checkout of the library instead of /repo.
 cd "$(dirname "$0")" || exit 2
 export CARGO_NET_OFFLINE=true
+BIN=./target/sim/simcheck
 build() {
-  (cd sim && cargo build --offline --profile sim 2>build.log) || { tail -30 sim/build.log; echo "HARNESS ERROR: build failed"; exit 2; }
+  if [ -n "$VERIF_REPO" ]; then
+    SH=target/shadow-$(echo "$VERIF_REPO" | tr '/' '_')
+    mkdir -p "$SH" && rm -rf "$SH/src" && cp -r sim/src sim/Cargo.lock "$SH/" || exit 2
+    sed "s#path = \"/repo\"#path = \"$VERIF_REPO\"#" sim/Cargo.toml > "$SH/Cargo.toml"
+    (cd "$SH" && cargo build --offline --profile sim --target-dir tgt 2>build.log) || { tail -30 "$SH/build.log"; echo "HARNESS ERROR: build failed"; exit 2; }
+    BIN="$SH/tgt/sim/simcheck"
+  else
+    (cd sim && cargo build --offline --profile sim 2>build.log) || { tail -30 sim/build.log; echo "HARNESS ERROR: build failed"; exit 2; }
+  fi
 }
 case "$1" in
   --build) build; exit 0 ;;
-  --replay) build; exec ./target/sim/simcheck replay --replay "$2" ;;
+  --bin) build; echo "$BIN"; exit 0 ;;
+  --replay) build; exec $BIN replay --replay "$2" ;;
 esac
 ID="$1"
 TIER="${2:-${VERIF_TIER:-quick}}"
 build
-exec ./target/sim/simcheck "$ID" --tier "$TIER"
+exec $BIN "$ID" --tier "$TIER"
